@@ -304,18 +304,23 @@ func pkgDirOf(P *symx.Program, harness string) string {
 }
 
 type replayFile struct {
-	Property string             `json:"property"`
-	Harness  string             `json:"harness"`
-	Kind     string             `json:"kind"`
-	Msg      string             `json:"msg"`
-	Inputs   []symx.ReplayInput `json:"inputs"`
+	Property string              `json:"property"`
+	Harness  string              `json:"harness"`
+	Kind     string              `json:"kind"`
+	Msg      string              `json:"msg"`
+	Inputs   []symx.ReplayInput  `json:"inputs"`
+	Digests  []symx.ReplayDigest `json:"digests,omitempty"`
 }
 
-func writeReplay(prop string, v *symx.Violation, k int) string {
+func writeReplay(prop string, v *symx.Violation, k int, dig ...[]symx.ReplayDigest) string {
 	dir := filepath.Join(verifDir, "out", prop)
 	os.MkdirAll(dir, 0o755)
 	f := filepath.Join(dir, fmt.Sprintf("%s-%d.json", v.Harness, k))
-	b, _ := json.MarshalIndent(replayFile{Property: prop, Harness: v.Harness, Kind: v.Kind, Msg: v.Msg, Inputs: v.Inputs}, "", " ")
+	rf := replayFile{Property: prop, Harness: v.Harness, Kind: v.Kind, Msg: v.Msg, Inputs: v.Inputs}
+	if len(dig) > 0 {
+		rf.Digests = dig[0]
+	}
+	b, _ := json.MarshalIndent(rf, "", " ")
 	ioutil.WriteFile(f, b, 0o644)
 	return f
 }
@@ -593,7 +598,7 @@ func cmdCheck(args []string) int {
 			for k := 0; k < n; k++ {
 				idx := (k + seed) % len(hr.Samples)
 				v := &symx.Violation{Harness: h.Name, Kind: "sample", Msg: "explored path", Inputs: hr.Samples[idx]}
-				fs = append(fs, writeReplay(prop, v, 100+k))
+				fs = append(fs, writeReplay(prop, v, 100+k, hr.SampleDig[idx]))
 			}
 			res, err := nativeReplay(files, pkgDirOf(P, h.Name), fs)
 			if err != nil {
